@@ -66,7 +66,7 @@ PLANS = {
              "between revisions; values vs reference plus the rule 'a function whose last execution read untracked state is executed "
              "again in every later revision in which a from-scratch evaluation of the request calls it'; non-trivial iff >=1 such "
              "re-execution was observed" + DIST,
-             200000, 6000000, {"untracked_reexec": 20000, "untracked_equal_reexec": 5000, "untracked_changed_reexec": 2000}),
+             200000, 6000000, {"untracked_reexec": 20000, "untracked_equal_reexec": 5000, "untracked_changed_reexec": 2000}, cap=200000),
     "C05": S("case = seeded (program with 6-12 lru functions, history with set_lru_capacity 0..5, trigger_lru_eviction, writes); "
              "values vs reference (transparency) and, after every write/eviction point, the set of lru keys still holding a value "
              "(live-instance registry of the value type) vs an exact LRU model; non-trivial iff >=1 eviction point with an eviction" + DIST,
@@ -86,7 +86,7 @@ PLANS = {
     "C10": S("case = seeded (program with creators that conditionally specify, pre-read, specify twice or specify foreign structs, "
              "history); q_spec results vs reference, no body execution after a specification, expected panics; non-trivial iff >=1 "
              "specification and >=1 specified value served" + DIST,
-             200000, 6000000, {"specified": 100000, "spec_served": 50000, "spec_served_creator_green": 5000, "spec_computed": 20000}),
+             200000, 6000000, {"specified": 100000, "spec_served": 50000, "spec_served_creator_green": 5000, "spec_computed": 20000}, cap=200000),
     "C11": S("case = seeded (program with accumulating functions at several depths, history); accumulated::<Diag>() compared (order and "
              "multiset) with the reference DFS of a from-scratch evaluation; non-trivial iff values were pushed, >=1 memo was "
              "validated and >=1 non-empty accumulated list was returned" + DIST,
@@ -151,6 +151,11 @@ PLANS["C08"] = C(
      "held_handles_read_back": 50000})
 PLANS["C08"]["rule"] += ("; run single-hist = one handle, histories of revisions under LOW..HIGH durabilities with slot reclamation "
                          "(the C09 family) checked for the same bijection, identity kept while the slot was not reclaimed, and values vs the reference")
+# C09 also runs its retention model over the concurrent interning family (several threads record the first use of a type in a
+# fresh revision at once)
+PLANS["C09"]["runs"] += [sched(8000, 200000), osrun(240, 6000)]
+PLANS["C09"]["rule"] += ("; runs sched/os = the concurrent interning family of C08 (pre-history with several revisions, then 2-4 threads "
+                         "interning in a fresh revision) checked by the same retention model over the merged log")
 PLANS["C16"] = C(
     "case = (acyclic program with shared sub-queries, pre-history with a write so verification and execution both run, 2-4 threads "
     "with overlapping requests); every thread result vs the reference; deadlock = all threads blocked (shuttle) / protocol-level stuck "
